@@ -329,7 +329,7 @@ mod kani_c19 {
         if a.k == K::Pending && b.k == K::Pending && reached(&d, i) {
             match a.timeout_at {
                 None => assert!(b.timeout_at == Some(d.now + S10) && b.idx == a.idx, "C19.dispatch: deadline = first dispatch + 10 s"),
-                Some(t) if t >= d.now => assert!(b.timeout_at == Some(t) && b.idx == a.idx, "C19.dispatch: deadline and server fixed until the deadline has passed"),
+                Some(t) if t > d.now => assert!(b.timeout_at == Some(t) && b.idx == a.idx, "C19.dispatch: deadline and server fixed until the deadline is reached"),
                 Some(_) => {}
             }
         }
